@@ -37,8 +37,11 @@ structure Plan where
   ending : Ending
   deriving Repr, DecidableEq
 
-def Attempt.deliveries (cfg : Config) (a : Attempt) : List Delivery :=
-  (match a.stage with | .handshake => [] | .data => [.data (handshakeReply cfg.challenge)]) ++
+/-! The script builders are stated for any challenge `c` and any data request `dreq` (Just Cause 2: Multiplayer speaks the
+same exchange with another payload: `Spec/Jc2mFaults.lean`); the GameSpy 3 ones take them from the `Config`. -/
+
+def Attempt.deliveriesAt (c : Int) (a : Attempt) : List Delivery :=
+  (match a.stage with | .handshake => [] | .data => [.data (handshakeReply c)]) ++
   (if a.sendFault then [] else [.silence])
 
 /-- the send flags an attempt consumes: the handshake request, and at the data stage the data request -/
@@ -49,16 +52,17 @@ def Attempt.faults (a : Attempt) : List Bool :=
 
 def Attempt.error (a : Attempt) : ErrKind := attemptError a.sendFault
 
-def Attempt.sends (cfg : Config) (a : Attempt) : List (Bytes × Bool) :=
+def Attempt.sendsWith (dreq : Bytes) (a : Attempt) : List (Bytes × Bool) :=
   match a.stage with
   | .handshake => [(handshakeRequest, a.sendFault)]
-  | .data => [(handshakeRequest, false), (dataRequest cfg.challenge, a.sendFault)]
+  | .data => [(handshakeRequest, false), (dreq, a.sendFault)]
 
-def Ending.deliveries (cfg : Config) (arrival : List Bytes) : Ending → List Delivery
-  | .valid => (handshakeReply cfg.challenge :: arrival).map .data
+/-- `packets`: the data packets of the valid exchange, as they arrive -/
+def Ending.deliveriesAt (c : Int) (packets : List Bytes) : Ending → List Delivery
+  | .valid => (handshakeReply c :: packets).map .data
   | .gaveUp => []
   | .malformed .handshake m => [.data m]
-  | .malformed .data m => [.data (handshakeReply cfg.challenge), .data m]
+  | .malformed .data m => [.data (handshakeReply c), .data m]
 
 def Ending.faults : Ending → List Bool
   | .valid => [false, false]
@@ -66,15 +70,27 @@ def Ending.faults : Ending → List Bool
   | .malformed .handshake _ => [false]
   | .malformed .data _ => [false, false]
 
-def Ending.sends (cfg : Config) : Ending → List (Bytes × Bool)
-  | .valid => [(handshakeRequest, false), (dataRequest cfg.challenge, false)]
+def Ending.sendsWith (dreq : Bytes) : Ending → List (Bytes × Bool)
+  | .valid => [(handshakeRequest, false), (dreq, false)]
   | .gaveUp => []
   | .malformed .handshake _ => [(handshakeRequest, false)]
-  | .malformed .data _ => [(handshakeRequest, false), (dataRequest cfg.challenge, false)]
+  | .malformed .data _ => [(handshakeRequest, false), (dreq, false)]
+
+def scriptAt (c : Int) (plan : Plan) (packets : List Bytes) : List Delivery :=
+  plan.fails.flatMap (Attempt.deliveriesAt c) ++ plan.ending.deliveriesAt c packets
+
+def sendsWith (dreq : Bytes) (plan : Plan) : List (Bytes × Bool) :=
+  plan.fails.flatMap (Attempt.sendsWith dreq) ++ plan.ending.sendsWith dreq
+
+def Attempt.deliveries (cfg : Config) (a : Attempt) : List Delivery := a.deliveriesAt cfg.challenge
+def Attempt.sends (cfg : Config) (a : Attempt) : List (Bytes × Bool) := a.sendsWith (dataRequest cfg.challenge)
+def Ending.deliveries (cfg : Config) (arrival : List Bytes) (e : Ending) : List Delivery :=
+  e.deliveriesAt cfg.challenge arrival
+def Ending.sends (cfg : Config) (e : Ending) : List (Bytes × Bool) := e.sendsWith (dataRequest cfg.challenge)
 
 /-- what the peer delivers under the plan, the data packets of the valid exchange arriving as `arrival` -/
 def faultyScript (cfg : Config) (plan : Plan) (arrival : List Bytes) : List Delivery :=
-  plan.fails.flatMap (Attempt.deliveries cfg) ++ plan.ending.deliveries cfg arrival
+  scriptAt cfg.challenge plan arrival
 
 /-- one flag per send of the query -/
 def faultyFaults (plan : Plan) : List Bool :=
@@ -82,7 +98,7 @@ def faultyFaults (plan : Plan) : List Bool :=
 
 /-- every datagram the client sends, with its failed flag: each attempt starts with the handshake request -/
 def faultySends (cfg : Config) (plan : Plan) : List (Bytes × Bool) :=
-  plan.fails.flatMap (Attempt.sends cfg) ++ plan.ending.sends cfg
+  sendsWith (dataRequest cfg.challenge) plan
 
 /-- the kind byte a reply of that stage starts with -/
 def Stage.kind : Stage → UInt8
@@ -102,13 +118,16 @@ def wfPlan (retries : Nat) (plan : Plan) : Bool :=
   | .gaveUp => plan.fails.length == retries + 1
   | .malformed stage m => plan.fails.length ≤ retries && malformedAt stage m
 
-/-- the outcome C10 prescribes for the packets of the response: the fault-free ones after at most `retries` failures, the
-last failure's error after `retries + 1`, the malformed datagram's error at once -/
-def faultyPackets (cfg : Config) (st : State) (plan : Plan) : Res (List Bytes) :=
+/-- the outcome C10 prescribes for the packets of the response, `good` being the fault-free ones: those after at most
+`retries` failures, the last failure's error after `retries + 1`, the malformed datagram's error at once -/
+def packetsOutcome (good : List Bytes) (plan : Plan) : Res (List Bytes) :=
   match plan.ending with
-  | .valid => .ok (payloads cfg st)
+  | .valid => .ok good
   | .gaveUp => .err (lastError Attempt.error plan.fails)
   | .malformed _ m => .err (malformedError m)
+
+def faultyPackets (cfg : Config) (st : State) (plan : Plan) : Res (List Bytes) :=
+  packetsOutcome (payloads cfg st) plan
 
 /-- … and for the query -/
 def faultyExpected (st : State) (plan : Plan) : Res Response :=
